@@ -105,7 +105,7 @@ Proof.
     assert (T : s_total s2 = s_total s).
     { unfold s2. destruct (is_nil (s_buf s0) && negb (s_eof s0)); [rewrite s_wait_total|];
         unfold s0; rewrite s_set_chunk_size_total, s_tick_total; reflexivity. }
-    rewrite s_with_total, dropb_len, takeb_len. unfold s_total in T. lia.
+    rewrite s_with_total, dropb_len, takeb_len. unfold s_total in *. lia.
 Qed.
 
 Lemma s_read_len n s d s1 : s_read n s = (d, s1) -> lenN d <= n.
